@@ -351,6 +351,15 @@ def build_T4t(tree):
                              or not isinstance(t.body[0].value, ast.Yield) or [_norm(x) for x in t.finalbody] != ['cursor.close()']
                              for t in tries):
         raise Unsupported('_iterate_indices_for_tiled_region: try statement other than `try: yield ... finally: cursor.close()`')
+    gens = [n for n in ast.walk(it) if isinstance(n, ast.GeneratorExp)]
+    if len(gens) != 1:
+        raise Unsupported('_iterate_indices_for_tiled_region: single generator expression over the frame query not found')
+    gen_iter = _norm(gens[0].generators[0].iter)
+    if tries:
+        if gen_iter != 'cursor' or 'cursor=self._db_con.execute(full_query)' not in ''.join(ast.unparse(it).split()):
+            raise Unsupported('_iterate_indices_for_tiled_region: the cursor closed in the finally clause is not the cursor of the frame query')
+    elif gen_iter != 'self._db_con.execute(full_query)':
+        raise Unsupported('_iterate_indices_for_tiled_region: the frame query is iterated in an unknown way: ' + gen_iter[:60])
     # the channel table: first column OutputChannelIndex UNIQUE, joined on the query columns
     pct = find_func(tree, '_Image._prepare_channel_tables')
     ptxt = ''.join(ast.unparse(pct).split())
@@ -370,7 +379,12 @@ def build_T4t(tree):
             "/-- … and after the body has finished normally.  Today: " + ', '.join(o + ('*' if f else '') for o, f in cleanup) + " -/\n"
             f"def tempTableCleanup : List (Nat × Bool) := {fmt(cleanup)}\n\n"
             "/-- is the clean-up also run when the body raises (`try … finally` around the `yield`)? -/\n"
-            f"def tempTableCleanupOnError : Bool := {'true' if on_error else 'false'}")
+            f"def tempTableCleanupOnError : Bool := {'true' if on_error else 'false'}\n\n"
+            "/-- does `_iterate_indices_for_tiled_region` close the cursor of its frame query when the `with` block is left, also by an "
+            "exception (`cursor = self._db_con.execute(full_query)`; `try: yield … finally: cursor.close()`)?  An open cursor keeps the "
+            "temporary table LOCKED for as long as the caller holds on to the exception; the table state `Option ChanTable` of the model is "
+            "the whole state only if this is true -/\n"
+            f"def tiledRegionCursorClosedOnExit : Bool := {'true' if len(tries) == 1 else 'false'}")
     return text, span_sha(body) + hashlib.sha256(ptxt.encode()).hexdigest()[:8]
 
 
@@ -444,36 +458,46 @@ def build_T4fs(tree):
                                    "segment_numbers=np.array(segment_numbers)"))
 
 
-def build_T4fv(tree):
+def _volume_forwarding(tree, cls, n1, n2):
     """`Image.get_volume`, tiled branch: the request is normalised once with `outputs_as_indices=True` and the 0-based results are
     handed to `get_total_pixel_matrix(..., as_indices=True)` -- both calls regenerated as the tuples they forward."""
-    fn = find_func(tree, 'Image.get_volume')
+    fn = find_func(tree, cls + '.get_volume')
     std = [n for n in ast.walk(fn) if isinstance(n, ast.Call) and _norm(n.func) == 'self._standardize_row_column_indices']
     if len(std) != 1 or [_norm(a) for a in std[0].args] != ['row_start', 'row_end', 'column_start', 'column_end']:
-        raise Unsupported('Image.get_volume: single call _standardize_row_column_indices(row_start, row_end, column_start, column_end, ...) not found')
+        raise Unsupported(cls + '.get_volume: single call _standardize_row_column_indices(row_start, row_end, column_start, column_end, ...) not found')
     skw = {k.arg: k.value for k in std[0].keywords}
     if sorted(skw) != ['as_indices', 'columns', 'outputs_as_indices', 'rows'] or _norm(skw['rows']) != 'total_rows' or _norm(skw['columns']) != 'total_columns':
-        raise Unsupported('Image.get_volume: keywords of the normalisation call changed')
+        raise Unsupported(cls + '.get_volume: keywords of the normalisation call changed')
     txt = ''.join(ast.unparse(fn).split())
     for needle in ("ifself.is_tiled:total_rows=self.TotalPixelMatrixRowstotal_columns=self.TotalPixelMatrixColumns",
                    "row_start,row_end,column_start,column_end=self._standardize_row_column_indices("):
         if needle not in txt:
-            raise Unsupported('Image.get_volume changed (missing ' + needle[:60] + ')')
+            raise Unsupported(cls + '.get_volume changed (missing ' + needle[:60] + ')')
     tpm = [n for n in ast.walk(fn) if isinstance(n, ast.Call) and _norm(n.func) == 'self.get_total_pixel_matrix']
     if len(tpm) != 1 or tpm[0].args:
-        raise Unsupported('Image.get_volume: single keyword call of get_total_pixel_matrix not found')
+        raise Unsupported(cls + '.get_volume: single keyword call of get_total_pixel_matrix not found')
     tkw = {k.arg: k.value for k in tpm[0].keywords}
     want = ['row_start', 'row_end', 'column_start', 'column_end', 'as_indices']
     if any(k not in tkw for k in want):
-        raise Unsupported('Image.get_volume: region keywords missing in the get_total_pixel_matrix call')
+        raise Unsupported(cls + '.get_volume: region keywords missing in the get_total_pixel_matrix call')
     b1 = [ast.parse(ast.unparse(ast.Return(value=ast.Tuple(elts=[skw['as_indices'], skw['outputs_as_indices']], ctx=ast.Load())))).body[0]]
-    t1 = translate_block(b1, 'volumeStdCall', [('as_indices', 'bool')], {},
-                         doc='`Image.get_volume`: (as_indices, outputs_as_indices) handed to `_standardize_row_column_indices`')
+    t1 = translate_block(b1, n1, [('as_indices', 'bool')], {},
+                         doc='`' + cls + '.get_volume`: (as_indices, outputs_as_indices) handed to `_standardize_row_column_indices`')
     b2 = [ast.parse(ast.unparse(ast.Return(value=ast.Tuple(elts=[tkw[k] for k in want], ctx=ast.Load())))).body[0]]
-    t2 = translate_block(b2, 'volumeTpmCall', [('row_start', 'int'), ('row_end', 'int'), ('column_start', 'int'), ('column_end', 'int')], {},
-                         doc='`Image.get_volume` (tiled): (row_start, row_end, column_start, column_end, as_indices) handed to '
+    t2 = translate_block(b2, n2, [('row_start', 'int'), ('row_end', 'int'), ('column_start', 'int'), ('column_end', 'int')], {},
+                         doc='`' + cls + '.get_volume` (tiled): (row_start, row_end, column_start, column_end, as_indices) handed to '
                              '`get_total_pixel_matrix` AFTER the normalisation')
     return t1 + '\n\n' + t2, span_sha([ast.Expr(value=std[0]), ast.Expr(value=tpm[0])])
+
+
+
+def build_T4fv(tree):
+    return _volume_forwarding(tree, 'Image', 'volumeStdCall', 'volumeTpmCall')
+
+
+def build_T4fw(tree):
+    """the same two calls in `Segmentation.get_volume` (its own tiled branch in seg/sop.py)"""
+    return _volume_forwarding(tree, 'Segmentation', 'segVolumeStdCall', 'segVolumeTpmCall')
 
 
 TARGETS = {
@@ -486,4 +510,5 @@ TARGETS = {
     'T4fi': {'file': 'image.py', 'build': build_T4fi},
     'T4fs': {'file': 'seg/sop.py', 'build': build_T4fs},
     'T4fv': {'file': 'image.py', 'build': build_T4fv},
+    'T4fw': {'file': 'seg/sop.py', 'build': build_T4fw},
 }
